@@ -216,6 +216,8 @@ impl Incomplete {
         let mut in_progress = HashSet::new();
         let mut completed = HashSet::new();
         while let Some(top) = stack.pop() {
+            #[cfg(feature = "verif-hooks")]
+            crate::verif_hooks::tick();
             let bound = match top {
                 OccursCheckStack::Complete(id) => {
                     in_progress.remove(&id);
